@@ -133,8 +133,17 @@ def gen_write(rng, nh):
     if cols is not None and "foo" in cols and rng.random() < 0.5:
         for dct in labels:
             dct["foo"] = "FOO"
-    comment = "" if rng.random() < 0.7 else "# a comment line"
+    comment = "" if rng.random() < 0.7 else rng.choice(COMMENTS)
     return ("wr", cols, labels, comment), adm and ok
+
+
+# free text of the file: the documentation allows multi-line comments whose lines start with '#'.  Non-ASCII characters,
+# trailing blanks, CRLF between the lines (none of them holds a double quote, which a csv reader would re-interpret)
+COMMENTS = ["# a comment line", "# gr\u00f6\u00dfe d\u03b7/dy \u2264 1", "# trailing blanks   ", "# two\n# lines", "# cr\r\n# lf", "#", "# a, b; c\td"]
+
+
+def comment_lines(comment):
+    return tuple(comment.splitlines()) if comment != "" else ()
 
 
 class Ref:
@@ -241,6 +250,8 @@ def bookkeep(ref, op):
         return write_admissible(op, nh)
     if k == "g":
         return True
+    if k == "cp":       # the session goes on with a copy of the object: nothing changes
+        return True
     if k == "x":        # an error-path call: has to be rejected; an element-wise path may have rewritten part of the errors
         if op[1] == "set_error":
             ref.errnz[-1] = None
@@ -276,6 +287,8 @@ def gen_op(rng, ref, errors="front"):
     nb, nh = ref.nb, ref.nh
     if errors and nb >= 1 and rng.random() < 0.08:
         return H.gen_error_call(rng, ref.edges, nh=nh, front_only=(errors == "front"))
+    if rng.random() < 0.05:
+        return ("cp", rng.choice(["copy", "deepcopy", "pickle"]))
     if rng.random() < 0.12:
         return ("g", rng.choice("cwlrbhken"))
     r = rng.random()
@@ -294,7 +307,8 @@ def gen_op(rng, ref, errors="front"):
         es = [rng.choice([1.0, 0.5, 2.0, 0.25, 3.0, 1.5]) for _ in range(n)]
         if rng.random() < 0.1 and es:
             es[rng.randrange(len(es))] = 0.0
-        return (rng.choice(["er", "er", "sy"]), es, rng.choice(H.CONTAINER_HOWS[:7]))
+        kind = rng.choice(["er", "er", "sy"])
+        return (kind, es, rng.choice(H.hows_for(H.OPMETHOD[kind], "own_error", H.CONTAINER_HOWS[:7])))
     if r < 0.65:
         q = rng.random()
         if q < 0.8 and nb < 6:
@@ -312,7 +326,7 @@ def gen_op(rng, ref, errors="front"):
     if r < 0.88:
         q = rng.random()
         if q < 0.75:
-            return ("aw", [rng.choice([1.0, 2.0, 0.5, 3.0, 0.25]) for _ in range(nh)], rng.choice(H.CONTAINER_HOWS[:7]))
+            return ("aw", [rng.choice([1.0, 2.0, 0.5, 3.0, 0.25]) for _ in range(nh)], rng.choice(H.hows_for("average_weighted", "weights", H.CONTAINER_HOWS[:7])))
         if q < 0.9:
             return ("aw", [1.0] * max(nh + rng.choice([1, -1, 2]), 0), "list")
         return ("aw", ([1.0, -1.0] + [0.0] * (nh - 2)) if nh >= 2 else [0.0], "list")
@@ -369,7 +383,7 @@ def gen_session(rng, max_blocks=4, errors="front"):
     if rng.random() < 0.85:
         outputs()
     for _ in range(rng.randint(1, max_blocks)):
-        kind = rng.choice(["rebin", "rebin", "hists", "content", "content", "random", "random", "error"])
+        kind = rng.choice(["rebin", "rebin", "hists", "content", "content", "random", "random", "error", "copy"])
         if kind == "rebin" and ref.nb >= 1 and ref.nb <= 6:
             if ref.nb >= 2 and rng.random() < 0.6:
                 emit(("rb", rng.randrange(ref.nb)))
@@ -390,7 +404,7 @@ def gen_session(rng, max_blocks=4, errors="front"):
                 emit(H.gen_scale(rng, ref.nb))
             if rng.random() < 0.8:
                 emit(("av",) if rng.random() < 0.5 else
-                     ("aw", [rng.choice([1.0, 2.0, 0.5, 3.0]) for _ in range(ref.nh)], rng.choice(H.CONTAINER_HOWS[:7])))
+                     ("aw", [rng.choice([1.0, 2.0, 0.5, 3.0]) for _ in range(ref.nh)], rng.choice(H.hows_for("average_weighted", "weights", H.CONTAINER_HOWS[:7]))))
                 tags.add("histograms-round-trip")
         elif kind == "content":
             q = rng.random()
@@ -399,12 +413,19 @@ def gen_session(rng, max_blocks=4, errors="front"):
             elif q < 0.55:
                 emit(H.gen_scale(rng, ref.nb))
             elif q < 0.8:
-                emit((rng.choice(["er", "sy"]), [rng.choice([1.0, 0.5, 2.0, 0.25, 3.0, 1.5]) for _ in range(ref.nb)],
-                      rng.choice(H.CONTAINER_HOWS[:7])))
+                kind = rng.choice(["er", "sy"])
+                emit((kind, [rng.choice([1.0, 0.5, 2.0, 0.25, 3.0, 1.5]) for _ in range(ref.nb)],
+                      rng.choice(H.hows_for(H.OPMETHOD[kind], "own_error", H.CONTAINER_HOWS[:7]))))
             elif q < 0.93:
                 emit(("se",))
             else:
                 emit(("md",))
+        elif kind == "copy":
+            # the session goes on with a copy.copy / copy.deepcopy / pickle round trip of the object
+            emit(("cp", rng.choice(["copy", "deepcopy", "pickle"])))
+            if rng.random() < 0.5:
+                fill()
+            tags.add("copied-object")
         elif kind == "error" and errors and ref.nb >= 1:
             # calls that fail (at different depths of their work), then the session goes on with the same object
             for _ in range(rng.randint(1, 2)):
@@ -443,7 +464,7 @@ def gen_big_average(rng):
     if all(w == 1.0 for w in ws) and rng.random() < 0.6:
         ops.append(("av",))
     else:
-        ops.append(("aw", list(ws), rng.choice(H.CONTAINER_HOWS[:7])))
+        ops.append(("aw", list(ws), rng.choice(H.hows_for("average_weighted", "weights", H.CONTAINER_HOWS[:7]))))
     ops.append(rng.choice([("wr", ["distribution", "stat_err+", "stat_err-"], lab, ""), ("wr", None, lab, ""), ("g", "e")]))
     edges = [float(x) for x in make_hist(ctor).bin_edges_]
     return ctor, edges, ops, readmit(ctor, ops)
@@ -468,7 +489,7 @@ def enc_op10(op):
 
 def enc_sess(edges, ops):
     """(error-path calls ("x", …) are outside the model: it is given the other calls only)"""
-    return "sess\t" + ";".join(common.f2h(e) for e in edges) + "\t" + "|".join(enc_op10(o) for o in ops if o[0] != "x")
+    return "sess\t" + ";".join(common.f2h(e) for e in edges) + "\t" + "|".join(enc_op10(o) for o in ops if o[0] not in H.UNMODELLED)
 
 
 def apply10(h, op):
@@ -554,7 +575,7 @@ def cmp_state(rs, ms, exact):
 
 def cmp_value(op, rv, mv, exact):
     if op[0] == "wr":
-        want_c = (op[3],) if len(op) > 3 and op[3] != "" else ()
+        want_c = comment_lines(op[3]) if len(op) > 3 else ()
         if tuple(getattr(rv, "comments", want_c)) != want_c:
             return f"comment lines {list(rv.comments)} written for comment={op[3] if len(op) > 3 else ''!r}"
         return H.compare_obs(("ok", rv), ("ok", mv), exact)
@@ -571,15 +592,20 @@ def compare_session(ctor, ops, answer, mode):
     H.set_precision(ctor)
     real, final, final_obs = run_session(ctor, ops, mode)
     model = parse_sess(answer)
-    if model is None or len(model) != len([o for o in ops if o[0] != "x"]):
+    if model is None or len(model) != len([o for o in ops if o[0] not in H.UNMODELLED]):
         return f"driver answered {answer[:200]}", -1, real
     exact = True
     it = iter(model)
     last = H.init_obs([float(x) for x in make_hist(ctor).bin_edges_])
     for i, (op, (rt, rv, rs)) in enumerate(zip(ops, real)):
+        if op[0] == "cp":
+            d = f"raised {rt}" if rt != "ok" else (cmp_state(rs, last, exact) if rs is not None else None)
+            if d:
+                return f"after call {i} (observation mode {mode}): the {H.op_method(op)} of the object differs from the object: {d}", i, real
+            continue
         if op[0] == "x":
             # a call outside the model: it has to raise and to leave the object as the model has it after the calls before
-            if not rt.startswith("err"):
+            if not rt.startswith("err") and "silent-ok" not in op[3]:
                 return None, -1, real
             d = cmp_state(rs, last, exact) if rs is not None else None
             if d:
@@ -827,6 +853,10 @@ def oracle_c10(ctor, ops, adms):
         k = op[0]
         name = GETTERS[op[1]] if k == "g" else H.op_method(op)
         where = dict(op_index=n, op=jsonable(list(op[:3])), after=last_shape_op)
+        if k == "wr":
+            where["file_name_given_as"] = H.path_form(jsonable([op[0], op[1], op[2], op[3] if len(op) > 3 else ""]))
+        if k not in ("g", "cp"):
+            where["call_form"] = H.call_form((name, jsonable([op[0], op[1], op[2], op[3] if len(op) > 3 else ""] if k == "wr" else list(op))))
         ref_ok = not ref.unknown
         if ref_ok:
             bookkeep(ref, op)
@@ -858,6 +888,19 @@ def oracle_c10(ctor, ops, adms):
             return (f"shape:{sp[0]}:after-{name}" + ("-rejected-call" if raised is not None else ""),
                     f"after {name}{' (which raised ' + type(raised).__name__ + ')' if raised is not None else ''}: "
                     f"{sp[0]} has shape {sp[1]}, expected {sp[2]} = (number of histograms, number of bins)", where)
+        if isinstance(raised, H.EnvironmentLeak):
+            return (f"environment:{'+'.join(raised.what)}:{name}", f"{name}: {raised}", where)
+        if k == "cp" and (raised is not None or not same(before, attrs(h))):
+            after = attrs(h)
+            diff = [k_ for k_ in before if not same(before[k_], after[k_])]
+            return (f"copy:{name}:differs-from-original",
+                    f"the {name} of the histogram " + (f"raised {type(raised).__name__}: {raised}" if raised is not None else
+                    f"differs from the histogram in {diff}: {[after[k_] for k_ in diff]} vs {[before[k_] for k_ in diff]}"), where)
+        if k == "x" and raised is None and "silent-ok" in op[3]:
+            if not same(before, attrs(h)):
+                return (f"undocumented-argument-kind-changed-object:{name}",
+                        f"{name}{op[2]} is outside the documented argument types and was neither refused nor ignored", where)
+            continue
         if raised is None and adm is False and k not in ("f", "fl", "wr"):
             return None     # a call the harness expected to be rejected went through: its bookkeeping is void
         # ---- error paths: a failed call leaves the object as it was
@@ -952,7 +995,7 @@ def oracle_c10(ctor, ops, adms):
             nh = ref.nh if ref_ok else snap["nh"]
             tab = tables(ref.edges, nh, snap)
             if k == "wr":
-                want_c = (op[3],) if len(op) > 3 and op[3] != "" else ()
+                want_c = comment_lines(op[3]) if len(op) > 3 else ()
                 if tuple(getattr(got, "comments", want_c)) != want_c:
                     return ("write:comment", f"write_to_file(comment={op[3] if len(op) > 3 else ''!r}) wrote the comment lines "
                             f"{list(got.comments)}", where)
